@@ -1581,6 +1581,14 @@ func (pc *PartitionContext) removeAllocation(release *si.AllocationRelease) ([]*
 				zap.String("appID", appID),
 				zap.String("allocationKey", alloc.GetAllocationKey()),
 				zap.String("nodeID", alloc.GetNodeID()))
+			// The node is being removed by the node event handler: the allocation is no longer part of the application
+			// so the node removal skips it. The queue must be updated here or the usage stays behind on the queue.
+			if release.TerminationType != si.TerminationType_PLACEHOLDER_REPLACED || alloc.GetRelease() == nil {
+				total.AddTo(alloc.GetAllocatedResource())
+				if alloc.IsPreempted() {
+					totalPreempting.AddTo(alloc.GetAllocatedResource())
+				}
+			}
 			continue
 		}
 		// without a replacement in flight there is nothing to swap in: the allocation is simply removed, the same is
